@@ -308,6 +308,18 @@ def probe_state():
              additional_flags={10: False})
     fired1 = list(Fired.log)
     dup = len(fired0) != len(set(fired0)) or len(fired1) != len(set(fired1))
+    # the same through the authorization entry point, the instruction sitting
+    # in the SECOND and in the THIRD script of the list
+    neutral = O('TRUE') + O('POP0')
+    for pos in (1, 2):
+        Fired.log = []
+        try:
+            functions.run_auth_scripts(
+                [neutral] * pos + [O('GET_MESSAGE') + b'\x00'], dict(FIELDS))
+        except BaseException:
+            pass
+        if sorted(set(Fired.log)) != sorted(set(fired0)):
+            fired0 = fired0 + [f'AUTH-SCRIPT-{pos}-DIFFERS']
     out.append(tuple(sorted(set(fired0))))
     out.append(tuple(sorted(set(fired1))))
     # contracts
@@ -315,8 +327,25 @@ def probe_state():
     for name, cid in sorted(CIDS.items()):
         st, exc = run_prog(isa.push(b'a') + isa.push(b'\x01') + isa.push(cid)
                            + O('INVOKE'))
-        if exc is None and st:
-            cs.append((name, st[-1].decode()))
+        tag = st[-1].decode() if exc is None and st else None
+        if tag is not None:
+            cs.append((name, tag))
+        # ... and invoked from a later script of an authorization
+        for pos in (1, 2):
+            seen = None
+            for cand in ('A', 'B'):
+                try:
+                    ok = functions.run_auth_scripts(
+                        [neutral] * pos + [
+                            isa.push(b'a') + isa.push(b'\x01') + isa.push(cid)
+                            + O('INVOKE') + isa.push(cand.encode())
+                            + O('EQUAL')], dict(FIELDS))
+                except BaseException:
+                    ok = False
+                if ok is True:
+                    seen = cand
+            if seen != tag:
+                cs.append((name, f'AUTH-SCRIPT-{pos}-SEES-{seen}'))
     # an id only ever supplied through a run's contracts= argument
     st, exc = run_prog(isa.push(b'a') + isa.push(b'\x01')
                        + isa.push(b'\x55' * 4) + O('INVOKE'))
